@@ -6,6 +6,7 @@
    (`ValR_of_coh_RL`: their matches are `pushOpenEnd_coh`, their validity the right-looseness of the last taken node). -/
 import Proofs.FitCloseStart
 import Proofs.NoInternal
+import Proofs.FitAround
 set_option linter.unusedVariables false
 namespace PM
 
@@ -1593,5 +1594,312 @@ theorem UL_openValid (S : Schema) : ∀ (os oe : Nat) (c : List Node), UL S os o
 theorem looseValid_openValid (S : Schema) (sl : Slice) (h : sl.looseValid S = true) :
     openValid S sl.openStart sl.openEnd sl.content = true :=
   UL_openValid S _ _ _ (ulB_sound S _ _ _ h)
+
+/-! ### a slice cut from a valid document is loosely valid -/
+
+mutual
+/-- every element node in the tree has a type of the schema and children whose marks that type allows -/
+def Schema.deepNode (S : Schema) : Node → Bool
+  | .elem t _ _ kids =>
+    decide (t < S.nodes.size) && kids.all (fun c => (S.nodeType t).allowsMarks c.marks) && S.deepKids kids
+  | _ => true
+def Schema.deepKids (S : Schema) : List Node → Bool
+  | [] => true
+  | n :: ns => S.deepNode n && S.deepKids ns
+end
+
+theorem deepKids_iff (S : Schema) (l : List Node) : S.deepKids l = true ↔ ∀ n ∈ l, S.deepNode n = true := by
+  induction l with
+  | nil => simp [Schema.deepKids]
+  | cons n ns ih => simp [Schema.deepKids, ih]
+
+theorem deepNode_elem (S : Schema) (t : TypeId) (a : Attrs) (m : Marks) (k : List Node) :
+    S.deepNode (.elem t a m k) = true ↔ t < S.nodes.size ∧ MarksOK S t k ∧ S.deepKids k = true := by
+  simp only [Schema.deepNode, Bool.and_eq_true, decide_eq_true_eq, List.all_eq_true, MarksOK]
+  exact ⟨fun ⟨⟨h1, h2⟩, h3⟩ => ⟨h1, h2, h3⟩, fun ⟨h1, h2, h3⟩ => ⟨⟨h1, h2⟩, h3⟩⟩
+
+theorem checkKids_deep (S : Schema) : ∀ (kids : List Node), S.checkKids kids = true → S.deepKids kids = true
+  | [], _ => by simp [Schema.deepKids]
+  | n :: ns, h => by
+    simp only [checkKids_cons, Bool.and_eq_true] at h
+    have ih := checkKids_deep S ns h.2
+    cases n with
+    | text s m => simp [Schema.deepKids, Schema.deepNode, ih]
+    | leaf t a m => simp [Schema.deepKids, Schema.deepNode, ih]
+    | elem t a m k =>
+      obtain ⟨_, p2, p3⟩ := checkNode_elem_parts S t a m k h.1
+      have hk := checkKids_deep S k p3
+      simp only [Schema.deepKids, Bool.and_eq_true]
+      exact ⟨(deepNode_elem S t a m k).2 ⟨checkNode_elem_ty S t a m k h.1, p2, hk⟩, ih⟩
+
+/-- what `Fragment.cut` keeps: deepness, and every node it returns carries the marks of a node that was there -/
+def DeepCut (S : Schema) (kids : List Node) : Prop :=
+  ∀ f t c, fcutLoop kids f t = .ok c → S.deepKids c = true ∧ ∀ x ∈ c, ∃ y ∈ kids, x.marks = y.marks
+
+theorem cutElem_deep (S : Schema) (ty : TypeId) (a : Attrs) (m : Marks) (kids : List Node) (IH : DeepCut S kids)
+    (hd : S.deepNode (.elem ty a m kids) = true) (f2 t2 : Nat) (c : Node)
+    (h : Node.cut (.elem ty a m kids) f2 t2 = .ok c) : S.deepNode c = true ∧ c.marks = m := by
+  obtain ⟨h1, h2, h3⟩ := (deepNode_elem S ty a m kids).1 hd
+  rw [Node.cut] at h
+  split at h
+  · simp at h; subst h
+    exact ⟨hd, rfl⟩
+  · split at h
+    · simp at h; subst h
+      exact ⟨(deepNode_elem S ty a m []).2 ⟨h1, by intro c hc; simp at hc, by simp [Schema.deepKids]⟩, rfl⟩
+    · cases hc : fcutLoop kids f2 t2 with
+      | error e => simp [hc, Except.map] at h
+      | ok c' =>
+        simp [hc, Except.map] at h
+        subst h
+        obtain ⟨d1, d2⟩ := IH f2 t2 c' hc
+        refine ⟨(deepNode_elem S ty a m c').2 ⟨h1, ?_, d1⟩, rfl⟩
+        intro x hx
+        obtain ⟨y, hy, e⟩ := d2 x hx
+        rw [e]; exact h2 y hy
+
+theorem match_cons_ok {hd : Node} {ns : List Node} {A B : Nat} {c : List Node}
+    (h : (match fcutLoop ns A B with
+      | .ok rest => (Except.ok (hd :: rest) : Res (List Node))
+      | .error e => .error e) = .ok c) : ∃ rest, fcutLoop ns A B = .ok rest ∧ c = hd :: rest := by
+  cases hr : fcutLoop ns A B with
+  | error e => rw [hr] at h; simp at h
+  | ok rest =>
+    rw [hr] at h
+    simp only [Except.ok.injEq] at h
+    exact ⟨rest, rfl, h.symm⟩
+
+theorem fcutLoop_deep (S : Schema) : ∀ kids : List Node, S.deepKids kids = true → DeepCut S kids
+  | [], _, f, t, c, h => by
+    unfold fcutLoop at h
+    split at h
+    · simp at h
+    · simp at h; subst h
+      exact ⟨by simp [Schema.deepKids], by intro x hx; simp at hx⟩
+  | n :: ns, hk, f, t, c, h => by
+    simp only [Schema.deepKids, Bool.and_eq_true] at hk
+    have IHns := fcutLoop_deep S ns hk.2
+    have consOK : ∀ (hd : Node) (rest : List Node), S.deepNode hd = true → hd.marks = n.marks →
+        (∃ f' t', fcutLoop ns f' t' = .ok rest) →
+        S.deepKids (hd :: rest) = true ∧ ∀ x ∈ hd :: rest, ∃ y ∈ n :: ns, x.marks = y.marks := by
+      intro hd rest h1 h2 ⟨f', t', hr⟩
+      obtain ⟨d1, d2⟩ := IHns f' t' rest hr
+      refine ⟨by simp [Schema.deepKids, h1, d1], ?_⟩
+      intro x hx
+      rcases List.mem_cons.mp hx with rfl | hx
+      · exact ⟨n, by simp, h2⟩
+      · obtain ⟨y, hy, e⟩ := d2 x hx
+        exact ⟨y, by simp [hy], e⟩
+    rw [fcutLoop] at h
+    split at h
+    · simp at h; subst h
+      exact ⟨by simp [Schema.deepKids], by intro x hx; simp at hx⟩
+    · simp only at h
+      split at h
+      · split at h
+        · cases n with
+          | text s m =>
+            simp only at h
+            cases hct : cutText s f (min s.length t) with
+            | error e => simp [hct] at h
+            | ok s' =>
+              simp only [hct] at h
+              obtain ⟨rest, hr, rfl⟩ := match_cons_ok h
+              exact consOK _ rest (by simp [Schema.deepNode]) rfl ⟨_, _, hr⟩
+          | leaf ty a m =>
+            simp only at h
+            obtain ⟨rest, hr, rfl⟩ := match_cons_ok h
+            exact consOK _ rest (by simp [Schema.deepNode]) rfl ⟨_, _, hr⟩
+          | elem ty a m kids =>
+            simp only at h
+            have hdk : S.deepKids kids = true := ((deepNode_elem S ty a m kids).1 hk.1).2.2
+            cases hct : Node.cut (.elem ty a m kids) (f - 1) (min (fsize kids) (t - 1)) with
+            | error e => simp [hct] at h
+            | ok hd =>
+              simp only [hct] at h
+              obtain ⟨rest, hr, rfl⟩ := match_cons_ok h
+              obtain ⟨e1, e2⟩ := cutElem_deep S ty a m kids (fcutLoop_deep S kids hdk) hk.1 _ _ hd hct
+              exact consOK hd rest e1 e2 ⟨_, _, hr⟩
+        · obtain ⟨rest, hr, rfl⟩ := match_cons_ok h
+          exact consOK n rest hk.1 rfl ⟨_, _, hr⟩
+      · obtain ⟨d1, d2⟩ := IHns _ _ c h
+        exact ⟨d1, fun x hx => by
+          obtain ⟨y, hy, e⟩ := d2 x hx
+          exact ⟨y, by simp [hy], e⟩⟩
+
+theorem fcut_deep (S : Schema) (kids c : List Node) (f t : Nat) (hk : S.deepKids kids = true)
+    (h : fcut kids f t = .ok c) : S.deepKids c = true := by
+  unfold fcut at h
+  split at h
+  · simp at h; subst h; exact hk
+  · split at h
+    · simp at h; subst h; simp [Schema.deepKids]
+    · exact (fcutLoop_deep S kids hk f t c h).1
+
+theorem sliceScan_deep (S : Schema) : ∀ (rest level : List Node) (f0 t0 f t : Nat) (s : Slice),
+    S.deepKids level = true → S.deepKids rest = true →
+    sliceScan level f0 t0 rest f t = .ok s → S.deepKids s.content = true
+  | [], level, f0, t0, f, t, s, hl, _, h => by
+    unfold sliceScan at h
+    unfold sliceHere at h
+    split at h
+    · rename_i c hc
+      simp at h; subst h
+      exact fcut_deep S level c f0 t0 hl hc
+    · simp at h
+  | n :: ns, level, f0, t0, f, t, s, hl, hr, h => by
+    have here : sliceHere level f0 t0 = .ok s → S.deepKids s.content = true := by
+      intro hh
+      unfold sliceHere at hh
+      split at hh
+      · rename_i c hc
+        simp at hh; subst hh
+        exact fcut_deep S level c f0 t0 hl hc
+      · simp at hh
+    simp only [Schema.deepKids, Bool.and_eq_true] at hr
+    rw [sliceScan_cons] at h
+    split at h
+    · exact here h
+    · split at h
+      · exact sliceScan_deep S ns level f0 t0 _ _ s hl hr.2 h
+      · cases n with
+        | text s' m => exact here h
+        | leaf ty a m => exact here h
+        | elem ty a m kids =>
+          simp only at h
+          have hdk : S.deepKids kids = true := ((deepNode_elem S ty a m kids).1 hr.1).2.2
+          split at h
+          · exact sliceScan_deep S kids kids _ _ _ _ s hdk hdk h
+          · exact here h
+
+theorem deepKids_append (S : Schema) (a b : List Node) : S.deepKids (a ++ b) = (S.deepKids a && S.deepKids b) := by
+  induction a with
+  | nil => simp [Schema.deepKids]
+  | cons n ns ih => simp [Schema.deepKids, ih, Bool.and_assoc]
+
+theorem RL_of_rightOpenValid_deep (S : Schema) : ∀ (b : Nat) (G : List Node), rightOpenValid S b G = true →
+    S.deepKids G = true → RL S b G
+  | 0, G, h, _ => by simpa [rightOpenValid, RL] using h
+  | b + 1, G, h, hd => by
+    obtain ⟨init, t, a, m, k, e, h1, h2, h3⟩ := rightOpenValid_succ_last S b G h
+    subst e
+    rw [deepKids_append] at hd
+    simp only [Bool.and_eq_true, Schema.deepKids, Bool.and_true] at hd
+    obtain ⟨d1, d2, d3⟩ := (deepNode_elem S t a m k).1 hd.2
+    exact ⟨init, t, a, m, k, rfl, h1, h2, d1, d2, RL_of_rightOpenValid_deep S b k h3 d3⟩
+
+theorem UL_of_openValid_deep (S : Schema) : ∀ (os oe : Nat) (c : List Node), openValid S os oe c = true →
+    S.deepKids c = true → UL S os oe c
+  | 0, oe, c, h, hd => by
+    rw [openValid_zero_left] at h
+    exact RL_of_rightOpenValid_deep S oe c h hd
+  | os + 1, oe, c, h, hd => by
+    cases c with
+    | nil => cases oe <;> simp [openValid, leftOpenValid] at h
+    | cons n rest =>
+      cases n with
+      | text s m => cases oe <;> simp [openValid, leftOpenValid] at h
+      | leaf t a m => cases oe <;> simp [openValid, leftOpenValid] at h
+      | elem t a m k =>
+        simp only [Schema.deepKids, Bool.and_eq_true] at hd
+        obtain ⟨d1, d2, d3⟩ := (deepNode_elem S t a m k).1 hd.1
+        cases oe with
+        | zero =>
+          simp only [openValid, leftOpenValid, Bool.and_eq_true] at h
+          have hk := UL_of_openValid_deep S os 0 k (by rw [openValid_zero_right]; exact h.1.2) d3
+          refine ⟨t, a, m, k, rest, rfl, h.1.1, d1, d2, ?_⟩
+          by_cases hr : rest = []
+          · exact .inl ⟨hr, hk⟩
+          · exact .inr ⟨hr, hk, h.2⟩
+        | succ b =>
+          cases rest with
+          | nil =>
+            simp only [openValid, Bool.and_eq_true] at h
+            exact ⟨t, a, m, k, [], rfl, h.1, d1, d2, .inl ⟨rfl, UL_of_openValid_deep S os b k h.2 d3⟩⟩
+          | cons y ys =>
+            simp only [openValid, Bool.and_eq_true] at h
+            have hk := UL_of_openValid_deep S os 0 k (by rw [openValid_zero_right]; exact h.1.2) d3
+            exact ⟨t, a, m, k, y :: ys, rfl, h.1.1, d1, d2,
+              .inr ⟨by simp, hk, RL_of_rightOpenValid_deep S (b + 1) (y :: ys) h.2 hd.2⟩⟩
+
+/-- **a slice cut from a valid document is loosely valid** -/
+theorem slice_UL (S : Schema) (src : Node) (f t : Nat) (sl : Slice) (hs : S.checkNode src = true)
+    (h : src.slice f t = .ok sl) : UL S sl.openStart sl.openEnd sl.content := by
+  have hov := slice_openValid S src f t sl hs h
+  have hdk : S.deepKids src.kids = true := checkKids_deep S _ (checkNode_kids hs)
+  refine UL_of_openValid_deep S _ _ _ hov ?_
+  unfold Node.slice sliceKids at h
+  split at h
+  · simp at h; subst h
+    simp [Slice.empty, Schema.deepKids]
+  · split at h
+    · simp at h
+    · exact sliceScan_deep S _ _ _ _ _ _ sl hdk hdk h
+
+/-- `replaceStep_valid_gen` for a slice given as loosely valid in the propositional form -/
+theorem replaceStep_valid_UL (S : Schema) (hdet : DetS S) (hfill : FillersOK S) (hw : WrapOK S) (hlab : LabelsOK S)
+    (hleaf : PM.FromDom.LeafOk S) (hts : TextStableP S) (hcl : Closable S) (doc : Node) (f t : Nat) (sl : Slice)
+    (hloose : UL S sl.openStart sl.openEnd sl.content)
+    (hv : S.checkNode doc = true) (hattrs : S.nodeAttrsOK doc = true)
+    (hrun : unplacedWfRun S doc f t sl = true) (st : Step) (h : replaceStep S doc f t sl = .ok (some st)) :
+    ∃ sl', st.sliceOf = some sl' ∧ openValid S sl'.openStart sl'.openEnd sl'.content = true := by
+  have hslv := UL_openValid S _ _ _ hloose
+  unfold replaceStep at h
+  unfold unplacedWfRun at hrun
+  split at h
+  · simp [pure, Except.pure] at h
+  · rename_i hcond
+    rw [if_neg hcond] at hrun
+    split at h
+    · rename_i rf rt hf ht
+      simp only [hf, ht] at hrun
+      split at h
+      · simp [throw, throwThe, MonadExceptOf.throw] at h
+      · have := pure_ok h
+        simp only [Option.some.injEq] at this
+        subst this
+        exact ⟨sl, rfl, hslv⟩
+      · rename_i htriv
+        simp only [htriv] at hrun
+        obtain ⟨st0, h0, hu, hfr, hlen, hsp, _⟩ := fitInit_ok S hf hv sl
+        rw [h0] at hrun
+        simp only [beq_iff_eq] at hrun
+        have inv0 : InStep st0 := by
+          refine ⟨hfr, ?_, by rw [hlen, Nat.add_sub_cancel]; exact hsp⟩
+          intro h; rw [h] at hlen; simp at hlen
+        have hp0 := fitInit_pureV S hf hv sl st0 h0
+        have hv0 : VInv S rf.depth rf.depth st0.frontier st0.placed := by
+          refine ⟨Nat.le_refl _, by rw [hlen]; omega, [], hp0, ?_⟩
+          obtain ⟨it, hit⟩ := list_one (st0.frontier.drop rf.depth) (by rw [List.length_drop, hlen]; omega)
+          rw [hit, Nat.sub_self]
+          exact ⟨by simp [leftOpenValid], fun hh => by cases hh⟩
+        have hU0 : UInv S st0.unplaced := by
+          rw [hu]
+          exact ⟨_, _, Nat.le_refl _, Nat.le_refl _, hloose⟩
+        unfold fitterFit at h
+        rw [FM.bind_eq h0] at h
+        obtain ⟨st1, h1, h⟩ := FM.bind_ok h
+        obtain ⟨inv1, g1, hv1⟩ := fitLoop_vinv_gen S hts hdet hfill hw hlab hleaf hcl rf.depth _ rf.depth st0 st1 h1
+          inv0 hv0 hU0 hrun
+        obtain ⟨mi, _, h⟩ := FM.bind_ok h
+        simp only at h
+        obtain ⟨target, htg, h⟩ := FM.bind_ok h
+        obtain ⟨c, hc, h⟩ := FM.bind_ok h
+        cases c with
+        | none => simp [pure, Except.pure] at h
+        | some c =>
+          simp only at h
+          have hpt : ∃ pt, doc.resolve pt = some target := by
+            cases mi with
+            | none =>
+              have := pure_ok htg
+              subst this
+              exact ⟨t, ht⟩
+            | some p => exact ⟨p, liftRaise_ok htg⟩
+          obtain ⟨pt, hpt⟩ := hpt
+          have hcv := closeFit_vinv S hdet hfill hleaf hts hcl hpt hattrs st1.frontier st1.placed rf.depth g1
+            inv1.frok inv1.sp hv1 c.1 c.2 hc
+          exact fitEmit_valid S rf rt mi _ c.1 c.2 st h hcv
+    · simp [throw, throwThe, MonadExceptOf.throw] at h
 
 end PM
